@@ -19,8 +19,8 @@ extern "C" __attribute__((used, visibility("default"))) const char *__asan_defau
 
 static void died_note() {
     char b[256];
-    World *W = g_world;
-    int n = snprintf(b, sizeof b, "\nDIED op=%d kind=%s api=%s\n", W ? W->cur_op : -9, W ? W->cur_kind.c_str() : "?", W ? W->cur_api.c_str() : "?");
+    Cur &c = cur();
+    int n = snprintf(b, sizeof b, "\nDIED op=%d kind=%s api=%s\n", c.op, c.kind.empty() ? "?" : c.kind.c_str(), c.api.empty() ? "?" : c.api.c_str());
     if (write(1, b, (size_t) n) < 0) {}
 }
 static void on_fatal(int sig) {
@@ -94,6 +94,7 @@ int main(int argc, char **argv) {
             Json line = Json::obj();
             line.set("hash", r["hash"]).set("ph", hex64(fnv1a_str(pd))).set("nt", nt ? 1 : 0);
             if (r["viol"].size()) line.set("viol", r["viol"]);
+            if (r.has("sh")) line.set("sh", r["sh"]).set("sw", r["switches"]);
             if ((int) i < nsamples) line.set("sample", plan);
             printf("END %llu %s\n", (unsigned long long) idx, line.dump().c_str());
             fflush(stdout);
